@@ -80,17 +80,25 @@ func runC07(c *Ctx) {
 		for _, call := range instrsIn(fromVictims, isCallToFn(fits)) {
 			args := call.(ssa.CallInstruction).Common().Args
 			t := termOf(args[3])
-			ok := t.contains(func(x *Term) bool {
-				return x.Op == "lookup" && strings.Contains(x.Args[1].String(), levelName) && strings.HasSuffix(x.Args[1].String(), ".UID")
-			})
+			ok := true
+			// (the share may be fetched by a get-or-initialise helper: every term it returns is looked at)
+			for _, rt := range resultTerms(args[3]) {
+				if !rt.contains(func(x *Term) bool {
+					return x.Op == "lookup" && strings.Contains(x.Args[1].String(), levelName) && strings.HasSuffix(x.Args[1].String(), ".UID")
+				}) {
+					ok = false
+				}
+			}
 			c.Check(ok, "O2", "PROV", funcKey(fromVictims)+": strategy evaluated on the remaining share of the queue at the divergence level", instrPos(call), trunc(t.String(), 160), "FitsReclaimStrategy is not given the remaining share of the reclaimee queue at the level where it diverges from the reclaimer")
 			q := termOf(args[2])
 			c.Check(strings.Contains(q.String(), levelName), "O2", "PROV", funcKey(fromVictims)+": strategy evaluated against the leveled reclaimee queue", instrPos(call), trunc(q.String(), 120), "FitsReclaimStrategy is not given the reclaimee queue at the divergence level")
 		}
 		// remaining share: initialised once per queue (only when absent), reduced for every ancestor
 		nInit := 0
-		for _, fn := range []*ssa.Function{fromVictims, sub} {
-			for _, in := range instrsIn(fn, func(in ssa.Instruction) bool { _, ok := in.(*ssa.MapUpdate); return ok }) {
+		for _, root := range []*ssa.Function{fromVictims, sub} {
+			for _, dh := range p.deepFind(root, func(in ssa.Instruction) bool { _, ok := in.(*ssa.MapUpdate); return ok }, 1) {
+				in := dh.In
+				fn := in.Parent()
 				mu := in.(*ssa.MapUpdate)
 				if !strings.Contains(termOf(mu.Value).String(), "GetAllocatedShare") {
 					continue
